@@ -23,6 +23,7 @@ func GetStreamFrame() *StreamFrame {
 }
 
 func putStreamFrame(f *StreamFrame) {
+	verifPutStreamFrame(f)
 	if !f.fromPool {
 		return
 	}
